@@ -243,6 +243,48 @@ def run(ctx):
                 r3.violation(key, "dictionary words are not ranked by their distance from the plain transliteration", site)
                 continue
         r3.ok(key, "%s → %s%s" % (src, p.variant, "(%s)" % last_ranks.get(src) if want == "Last" else ""))
+    # the English candidate is offered whenever the option is on, except where it would duplicate an existing candidate
+    from . import c17, c18
+    acc = c17.accessors(prog)
+    astuple = c18.as_tuple_fns(prog, acc)
+    for p in events:
+        if p.item is None or classify_source(prog, p) != "english":
+            continue
+        b = p.outer_body
+        extra = []
+        for (d, pol, s) in builders.effective_guards(prog, b, p.outer_bb):
+            if d.k == "call" and d.a[0].endswith("get_suggestion_include_english") and pol is True:
+                continue
+            if d.k == "call" and (d.a[0].endswith("::ne") or d.a[0].endswith("::eq")):
+                x, y = peel_conv(d.a[1][0]), peel_conv(d.a[1][1])
+                parts = [c18.split_part(prog, b, z, acc, astuple) for z in (x, y)]
+                raws = [z for z in (x, y) if z.k == "arg" and b.locals[z.a[0]]["ty"] == "&str"]
+                if raws and any(pp and pp[0] == "preceding" for pp in parts) and pol == d.a[0].endswith("::ne"):
+                    continue
+            # a bool flag that is only ever set to true right after the typed text was pushed as the emoticon literal
+            t = b.blocks[s]["term"]
+            if t["discr"]["k"] != "const" and not t["discr"]["place"]["p"] and pol is False:
+                loc = t["discr"]["place"]["l"]
+                # follow one copy
+                defs = b.defs.get(loc, [])
+                if len(defs) == 1 and defs[0][2] == "assign" and defs[0][3]["rv"]["k"] == "use" and defs[0][3]["rv"]["op"]["k"] in ("copy", "move"):
+                    loc = defs[0][3]["rv"]["op"]["place"]["l"]
+                    defs = b.defs.get(loc, [])
+                trues = [d_ for d_ in defs if d_[2] == "assign" and d_[3]["rv"]["k"] == "use" and d_[3]["rv"]["op"].get("bool") is True]
+                falses = [d_ for d_ in defs if d_[2] == "assign" and d_[3]["rv"]["k"] == "use" and d_[3]["rv"]["op"].get("bool") is False]
+                if trues and len(trues) + len(falses) == len(defs):
+                    lit_blocks = [q.outer_bb for q in events if q.fn == p.fn and q.item is not None and classify_source(prog, q) in ("emoticon-literal", "emoji")]
+                    if all(any(b.dominates(lb, d_[0]) or lb == d_[0] for lb in lit_blocks) or
+                           any(contains_call(dd, lambda n: n.endswith("get_emoji_by_emoticon")) for (dd, pp, ss) in guards_of(b, d_[0])) for d_ in trues):
+                        continue
+            extra.append((d, pol))
+        key = "english-guards@%s" % p.fn.split("::")[-1]
+        if extra:
+            r3.violation(key, "the raw English candidate is suppressed under %s; the stated order offers it whenever the option is on "
+                         "(allowed exceptions: already added as the emoticon literal, or equal to the captured punctuation)"
+                         % ", ".join("%r=%s" % (d, pol) for d, pol in extra)[:300], site_of(b, p.outer_bb))
+        else:
+            r3.ok(key, "English pushed iff option ∧ not already present (emoticon literal / captured punctuation)")
     for need in ("autocorrect", "dictionary", "transliteration", "english", "emoji", "emoticon-literal"):
         if not any(i["key"].startswith(need + "@") for i in r3.instances):
             r3.violation("missing:%s" % need, "no push of a %s candidate was found in the phonetic builders" % need, common.fn_line(prog, gs))
@@ -338,7 +380,7 @@ def run(ctx):
                     r3.ok("sort", "sort dominates the selection look-up and the returned copy; no push after it")
                 else:
                     r3.violation("sort", "the selection look-up or the returned copy is not dominated by the sort", site_of(sb, sbb))
-    r3.floor(11, "6 sources + last-order + user-first + distance ctor + change-item + sort")
+    r3.floor(12, "6 sources + english guards + last-order + user-first + distance ctor + change-item + sort")
 
     # ---------------- R4 duplicates
     r4 = chk.rule("C07.R4", "dictionary/suffix items and the transliteration enter through the duplicate-suppressing push; equality is on text",
